@@ -10,7 +10,7 @@ from vp import core, state
 ID = 'C05'
 LEVEL = 'exploration'
 RULE = ('(a) signatures = optional leading * + 1..3 arguments, each (delimiter in {none,[],(),<>}) x (type in untyped,str,int,'
-        'float,dimen,list,list(;),dict,Tok,nox,cs), 4..6 arguments over 4 kinds; calls = every combination of value spellings '
+        'float,dimen,list,list(;),dict,Tok,nox,cs, element-typed list:int, list(-):int, dict:int, list:dimen, list:str), 4..6 arguments over 4 kinds; calls = every combination of value spellings '
         '(nested groups/brackets, bracket hidden in braces, leading blank), optional present/absent, star present/absent; '
         'oracle from the generator: bound values, absent -> None, argSource, untouched tail, balanced enable counter. '
         '(b) literals = sign runs x integer forms (decimal, octal, hex, char code, register, macro digits) / decimal forms x '
@@ -23,7 +23,9 @@ ASSUMPTIONS = [
     '\\value{c} is treated as digit text (plasTeX design), so it is not followed by a blank in the alphabet',
 ]
 
-TYPES = ['', 'str', 'int', 'float', 'dimen', 'list', 'list(;)', 'dict', 'Tok', 'nox', 'cs']
+TYPES = ['', 'str', 'int', 'float', 'dimen', 'list', 'list(;)', 'dict', 'Tok', 'nox', 'cs',
+         'list:int', 'list(-):int', 'dict:int', 'list:dimen', 'list:str']
+SUBTYPED = ('list:int', 'list(-):int', 'dict:int', 'list:dimen', 'list:str')    # element type after a second colon
 DELIMS = ['', '[]', '()', '<>']
 PT = 65536
 
@@ -33,6 +35,8 @@ def kinds(full=True):
     for d in DELIMS:
         for t in TYPES:
             if d and t in ('Tok', 'cs'):
+                continue
+            if t in SUBTYPED and d not in ('', '[]'):
                 continue
             out.append((d, t))
     return out
@@ -55,6 +59,11 @@ def values(delim, typ):
             'list': [('{a,b}', ['a', 'b']), ('{a,{b,c},d}', ['a', 'b,c', 'd'])],
             'list(;)': [('{a;b}', ['a', 'b']), ('{a,b;{c;d}}', ['a,b', 'c;d'])],
             'dict': [('{x=1,y=2}', {'x': '1', 'y': '2'}), ('{x={a,b},z}', {'x': 'a,b', 'z': True})],
+            'list:int': [('{2,3}', [2, 3]), ('{"A, \'17,-4}', [10, 15, -4])],
+            'list(-):int': [('{2-3}', [2, 3]), ('{12-"C}', [12, 12])],
+            'dict:int': [('{x=1,y=-2}', {'x': 1, 'y': -2}), ('{k="1F}', {'k': 31})],
+            'list:dimen': [('{1pt,2in}', [Fraction(PT), Fraction(7227, 50) * PT])],
+            'list:str': [('{a,{b,c},d}', ['a', 'b,c', 'd'])],
             'Tok': [('\\foo ', '\\foo'), ('a', 'a')],
             'nox': [('{a\\zzu b}', 'a\\zzub')],
             'cs': [('\\foo ', '\\foo')],
@@ -71,6 +80,11 @@ def values(delim, typ):
         'list(;)': [('a;b', ['a', 'b'])],
         'dict': [('x=1,y=2', {'x': '1', 'y': '2'}), ('x={%s},z' % o, {'x': o, 'z': True})],
         'nox': [('a\\zzu b', 'a\\zzub')],
+        'list:int': [('2,3', [2, 3]), ('-7', [-7])],
+        'list(-):int': [('2-3', [2, 3])],
+        'dict:int': [('x=1,y=-2', {'x': 1, 'y': -2})],
+        'list:dimen': [('1pt,2in', [Fraction(PT), Fraction(7227, 50) * PT])],
+        'list:str': [('a,{b%s},c' % c, ['a', 'b' + c, 'c'])],
     }
     return [(o + s + c, v) for s, v in m[typ]]
 
@@ -137,14 +151,28 @@ def canon(v):
     if isinstance(v, str):
         return str(v)
     if isinstance(v, dict):
-        return {str(canon_text(k)): canon_text(x) for k, x in v.items()}
+        return {str(canon_text(k)): canon_elem(x) for k, x in v.items()}
     if isinstance(v, list):
         if v and all(isinstance(x, Token) for x in v):
             return ('toks', ''.join(x.source for x in v).replace(' ', ''))
-        return [canon_text(x) for x in v]
+        return [canon_elem(x) for x in v]
     if hasattr(v, 'textContent'):
         return v.textContent
     return repr(v)
+
+
+def canon_elem(x):
+    """element of a list / dictionary value: numbers and dimensions keep their type, everything else is text"""
+    import plasTeX
+    if isinstance(x, plasTeX.dimen):
+        return ('dimen', float(x))
+    if isinstance(x, bool) or x is None:
+        return x
+    if isinstance(x, int):
+        return int(x)
+    if isinstance(x, float):
+        return float(x)
+    return canon_text(x)
 
 
 def canon_text(x):
@@ -166,6 +194,13 @@ def matches(exp, obs, typ):
         return obs == ('toks', exp)
     if typ == 'dimen':
         return isinstance(obs, tuple) and obs[0] == 'dimen' and abs(Fraction(obs[1]) - exp) < 1
+    if typ == 'list:dimen':
+        return (isinstance(obs, list) and len(obs) == len(exp) and
+                all(isinstance(o, tuple) and o[0] == 'dimen' and abs(Fraction(o[1]) - e) < 1 for o, e in zip(obs, exp)))
+    if typ in ('list:int', 'list(-):int'):
+        return isinstance(obs, list) and obs == exp and all(type(o) is int for o in obs)
+    if typ == 'dict:int':
+        return isinstance(obs, dict) and obs == exp and all(type(o) is int for o in obs.values())
     if typ == 'float':
         return isinstance(obs, float) and obs == exp
     if typ == 'int':
@@ -371,6 +406,11 @@ def numeric_cases(part, quick):
                 yield 'dimen', sg + '\\zzd' + nxs, sign_value(sg) * 3 * PT, rest
                 yield 'dimen', sg + '2\\zzd' + nxs, sign_value(sg) * 6 * PT, rest
                 yield 'dimen', sg + '1.5\\zzd' + nxs, sign_value(sg) * Fraction(9, 2) * PT, rest
+                # a blank between the factor and the register (TeX: <factor><optional spaces><internal dimen>)
+                yield 'dimen', sg + '2 \\zzd' + nxs, sign_value(sg) * 6 * PT, rest
+                yield 'dimen', sg + '1.5 \\zzd' + nxs, sign_value(sg) * Fraction(9, 2) * PT, rest
+                yield 'dimen', sg + '"10 \\zzd' + nxs, sign_value(sg) * 48 * PT, rest
+                yield 'dimen', sg + '2 \\zzr' + nxs, sign_value(sg) * 2 * 5, rest
     elif part == 'glue':
         FIL = {'fil': 2e9, 'fill': 4e9, 'filll': 6e9}
         comps = [('', None), (' plus 2pt', Fraction(2 * PT)), ('plus1fil', ('fil', 1)), (' plus 2fill', ('fill', 2)),
